@@ -293,7 +293,7 @@ PLAN['C04'] = {
             'MapPollard.Verify and MapPollard.VerifyPartialProof with malformed input: every position plus 2^(R+1)-1.., '
             '2^32, 2^62+3, 2^63, 2^64-2, 2^64-1 as targets, duplicates and nested pairs, hash lists longer/shorter than '
             'the target lists, zero hashes, proofs of length 0..2 and an oversized one, and synthetic well-formed stumps '
-            'with 2^31+5 .. 2^64-1 leaves. Every call runs under a watchdog (2 s budget, i.e. > 10^6 times the honest '
+            'with 2^31+5 .. 2^64-1 leaves. Every call runs under a watchdog (20 s budget, i.e. > 10^7 times the honest '
             'cost) with panics recovered; after a rejected Stump.Update leaf count and roots are compared with a '
             'snapshot. evaluations = states; library_calls_monitored = calls.',
     'bounds': {'quick': 'n<=4 (31 states): 4.2 M calls, 0.55 M rejected updates', 'thorough': 'n<=6 (127 states)'},
